@@ -118,6 +118,18 @@ PROGRAMS = {
     # the plan pauses itself in a non-resumable section after having set a device whose stop() really awaits
     "aselfpause_nores": {"msgs": [M("open_run"), M("checkpoint"), M("set", "amotor", a="g1"), M("wait", a="g1"), M("clear_checkpoint"),
                                   M("pause", a="F"), M("null"), M("null")]},
+    # a save that is rejected (the stream's device set differs from its descriptor's), after which the plan's clean-up takes
+    # another reading: the rejected bundle must not leak into it
+    "badsave_fin": {"msgs": [M("open_run"), M("checkpoint")] + _point + [M("create", a="primary"), M("read", "det2"), M("save"),
+                             M("create", a="baseline"), M("read", "motor"), M("save"), M("close_run")],
+                    "kind": "finally", "try": [2, 8], "cleanup": [9, 12]},
+    # a monitor that is removed part-way through the run; the run goes on (interruptions keep being recorded)
+    "mon_then": {"msgs": [M("open_run"), M("monitor", "mon1"), M("checkpoint")] + _point + [M("unmonitor", "mon1"), M("null"), M("null")] + _point
+                         + [M("null"), M("close_run")]},
+    # every message with a non-None response is followed by a null that a preprocessor drops (scenario option drop=["null"])
+    "dropper": {"msgs": [M("open_run"), M("null"), M("checkpoint"), M("set", "motor", a="g1"), M("null"), M("wait", a="g1"), M("null"),
+                         M("trigger", "det", a="g2"), M("null"), M("wait", a="g2"), M("create", a="primary"), M("read", "det"), M("null"), M("save"),
+                         M("close_run"), M("null")]},
     "openonly": {"msgs": [M("open_run"), M("checkpoint"), M("sleep"), M("null")]},
     # pauses requested by the plan itself (Msg('pause')): resumable, deferred, and in a non-resumable section with the run left open
     "selfpause": {"msgs": [M("open_run"), M("checkpoint"), M("null"), M("pause", a="F"), M("null"), M("checkpoint"), M("pause", a="T"), M("null"),
@@ -158,7 +170,7 @@ PROGRAMS = {
 }
 ASYNC_PLANS = {"amove", "aopen", "aselfpause_nores"}      # devices whose stop()/pause()/resume() are coroutines that really suspend
 MULTI_RUN_PLANS = {"multi", "multimon", "dupopen", "multi_close"}
-NOT_CONFORMANCE = set()        # use commands RE.tla does not model (yet): monitored only
+NOT_CONFORMANCE = {"dropper"}        # use commands RE.tla does not model (yet): monitored only
 
 BUILTINS = {
     "count": {"builtin": "count", "args": {"dets": ["det"], "num": 2}},
@@ -465,7 +477,7 @@ def corpus_spec(tier):
     """the list of sweeps that make up the corpus"""
     quick = tier == "quick"
     sweeps = []
-    progs = ["simple", "two", "fin", "move", "mon", "multi", "defer", "norew", "paus", "err", "openonly", "nores_open", "nores_rew", "nores_then_ckpt", "unstage_only", "cfg_late", "multi_close", "amove", "aopen", "aselfpause_nores",
+    progs = ["simple", "two", "fin", "move", "mon", "multi", "defer", "norew", "paus", "err", "openonly", "mon_then", "nores_open", "nores_rew", "nores_then_ckpt", "unstage_only", "cfg_late", "multi_close", "amove", "aopen", "aselfpause_nores",
              "selfpause", "selfpause_nores", "selfpause_nores_fin", "selfdefer_nores", "norew_save"]
     kinds = REQ_KINDS
     if quick:
@@ -496,6 +508,20 @@ def build_corpus(tier, only=None):
             scs += lst
     if tier != "quick":
         scs += pair_scenarios()
+    # messages dropped by a preprocessor: uninterrupted and with a pause / suspension at every point (monitored only: RE.tla
+    # describes what the engine sees)
+    db = base_scenario("dropper")
+    db["options"]["drop"] = ["null"]
+    db["id"] = "dropper"
+    nd = run_one(db)["points"]
+    scs.append(db)
+    for kind in ("pause", "suspend"):
+        for p in range(0, nd + 1, 2 if quick_tier(tier) else 1):
+            inj = [{"at": p, "kind": kind, "arg": "f1"}]
+            if kind == "suspend":
+                inj.append({"at": p + 2, "kind": "release", "arg": "f1"})
+            scs.append(with_inject(db, inj, ["resume"] * 3, f"{kind}@{p}|resume"))
+    scs.append(base_scenario("badsave_fin"))       # (uninterrupted only: a rewind would replay the rejected bundle)
     scs += fault_scenarios(tier)
     scs += monitor_scenarios(tier)
     scs += suspender_scenarios(tier)
@@ -626,6 +652,15 @@ def monitor_scenarios(tier):
             else:
                 inj += [{"at": q, "kind": "pause"}, {"at": q + 4, "kind": "update", "arg": "mon1"}]
                 out.append(with_inject(base, inj, ["resume", "update:mon1", "resume", "resume"], f"pause@1,then-pause@{q}+updates"))
+    # two interruptions while the signal is monitored (the second one must suspend the monitor again), with updates while paused
+    for p1, p2 in ((5, 9), (5, 13)) if tier == "quick" else [(a, b) for a in range(4, n - 4, 2) for b in range(a + 3, n, 3)]:
+        out.append(with_inject(base, [{"at": p1, "kind": "pause"}, {"at": p2, "kind": "pause"}, {"at": p2 + 4, "kind": "update", "arg": "mon1"}],
+                               ["resume", "update:mon1", "resume", "resume"], f"pause@{p1},then-pause@{p2}+updates"))
+    # interruptions after the monitor has been removed: the interruptions stream keeps its own numbering across rewinds
+    base2 = base_scenario("mon_then")
+    n2 = run_one(base2)["points"]
+    for p1 in (range(14, n2 - 3, 3) if tier == "quick" else range(12, n2 - 2)):
+        out.append(with_inject(base2, [{"at": p1, "kind": "pause"}, {"at": p1 + 2, "kind": "pause"}], ["resume"] * 4, f"pause@{p1},then-pause@{p1 + 2}"))
     return out
 
 
@@ -651,6 +686,10 @@ def suspender_scenarios(tier):
             out.append(mk(plan, f"pre-tripped,remove@{p}", {"sig1": 0, "sig2": 0}, [["sig_put", "sig1", 1], ["sus_install", "s1", 0]],
                           [{"at": p, "kind": "sus_remove", "arg": "s1"}, {"at": p + 2, "kind": "sus_remove", "arg": "s1"},
                            {"at": p + 3, "kind": "sig_put", "arg": "sig1", "value": 1}]))
+        # A00. removed while tripped and installed again while the signal is still bad, all before the call: it must gate the start
+        out.append(mk(plan, "tripped,removed,reinstalled,put0@blocked", {"sig1": 0, "sig2": 0},
+                      [["sig_put", "sig1", 1], ["sus_install", "s1", 0], ["sus_remove", "s1", 0], ["sus_install", "s1", 0]],
+                      [{"at": "blocked", "kind": "sig_put", "arg": "sig1", "value": 0}]))
         # A0. trips in the window between RE(...) consulting the suspenders and the run task's first step
         out.append(mk(plan, "trip@startup,put0@3", {"sig1": 0, "sig2": 0}, [["sus_install", "s1", 0]],
                       [{"at": "startup", "kind": "sig_put", "arg": "sig1", "value": 1}, {"at": 3, "kind": "sig_put", "arg": "sig1", "value": 0}]))
